@@ -215,6 +215,9 @@ class MemOrchestrator(BaseOrchestrator):
         """Registers new invocations and sets them to REGISTERED status."""
         status_record = InvocationStatusRecord(InvocationStatus.REGISTERED, runner_id)
         for invocation in invocations:
+            if invocation.invocation_id in self.invocation_status_record:
+                # "if they don't exist yet": an already registered id keeps its record
+                continue
             self._interanl_atomic_status_transition(
                 invocation.invocation_id, None, status_record
             )
